@@ -38,7 +38,11 @@ func hookGasSweep(t *testing.T, prop string, nMsgs int) {
 	_, p = tc.l1Deposit(tc.users[0], u.Str, coinOf("uinit", 300), data)
 	msg := relayMsg(exec, p)
 	outcomes := map[string]int{}
-	for g := uint64(20_000); g <= 260_000; g += 150 {
+	step := uint64(150)
+	if thorough() {
+		step = 37 + uint64(cfgShard) // every shard walks its own grid
+	}
+	for g := uint64(20_000); g <= 260_000; g += step {
 		caseID := fmt.Sprintf("hookMaxGas=%d/msgs=%d", g, nMsgs)
 		branchL2(l2, func(b *henv.L2) {
 			params, _ := b.K.GetParams(b.Ctx)
